@@ -630,6 +630,13 @@ def c04(obs: Observer):
                 return ('started-job-left-on-dead-instance', f'job {k} is {j["state"]} with current attempt {j["attempt_id"]} on instance '
                                                             f'{a["instance_name"]}, which is {inst["state"]} after `{obs.op}`: nothing will reset it')
     if obs.op.startswith('deactivate'):
+        ts_ = int(obs.op.split()[3])
+        nm_ = f'inst{obs.op.split()[1]}'
+        ends = [a['end_time'] for a in p.attempts.values() if a['instance_name'] == nm_ and a['end_time'] is not None]
+        if ts_ in ends:
+            obs.tag('deactivate-timestamp-equals-reported-end-time-of-an-attempt')
+        elif any(e > ts_ for e in ends):
+            obs.tag('deactivate-timestamp-before-reported-end-time-of-an-attempt')
         dead = f'inst{obs.op.split()[1]}'
         if any(o['state'] == 'Creating' and (a0 := p.attempts.get((k[0], k[1], o['attempt_id']))) and a0['instance_name'] == dead and
                p.instances.get(dead, {}).get('state') == 'pending' for k, o in p.jobs.items()):
@@ -855,6 +862,12 @@ def c07(obs: Observer):
     p, v = obs.prev, obs.cur
     ws = obs.op.split()
     scenario_tags(obs)
+    if ws[0] in ('insertGroups', 'insertJobs') and (int(ws[1]), 0) in p.cancelled and p.updates.get((int(ws[1]), int(ws[2]))) and \
+            not p.updates[(int(ws[1]), int(ws[2]))]['committed']:
+        # the batch was cancelled while this update is still being submitted
+        obs.tag(f'{ws[0]}-of-open-update-after-cancel-of-the-batch')
+        if ws[0] == 'insertGroups' and any(t.split(';')[1] == 'N' for t in ws[4:]):
+            obs.tag('insertGroups-with-in-update-parent-after-cancel-of-the-batch')
     # (1) no start after cancel
     for k, j in v.jobs.items():
         o = p.jobs.get(k)
